@@ -77,6 +77,10 @@ fn main() {
         "C19" => props::runtime::C19,
         "C20" => props::runtime::C20,
         "C21" => props::runtime::C21,
+        "C24" => props::gen_props::C24,
+        "C25" => props::gen_props::C25,
+        "C26" => props::gen_props::C26,
+        "C33" => props::gen_props::C33,
         "C31" => props::small::C31,
         "C32" => props::small::C32,
     );
